@@ -156,6 +156,35 @@ var Layouts = []Layout{
 	{Name: "attr-tick-raw", Pre: "\t<div title={", Post: "}>x</div>", Toks: []string{`up(`, "\"t`\"", `,`, "`l1\nl2`", `)`}},
 	{Name: "text-tick-raw", Pre: "\t{", Post: "}", Toks: []string{`up(`, "\"t`\"", `,`, "`l1\n  l2`", `)`}},
 	{Name: "raw-go-tick-raw", Pre: "\t{{", Post: "}}\n\t{ v }", Toks: []string{`v`, `:=`, `up(`, "\"t`\"", `,`, "`l1\nl2`", `)`}},
+	// a one-line expression that gofmt writes over several lines
+	{Name: "spreading-attr", Pre: "\t<div title={", Post: "}>x</div>", Toks: []string{spreading}},
+	{Name: "spreading-attr-two", Pre: "\t<div id=\"i\" title={", Post: "} lang=\"en\">x</div>", Toks: []string{spreading}},
+	{Name: "spreading-text", Pre: "\t<p>{", Post: "}</p>", Toks: []string{spreading}},
+	{Name: "spreading-text-alone", Pre: "\t{", Post: "}", Toks: []string{spreading}},
+	{Name: "spreading-call-arg", Pre: "\t@c2(", Post: ", b)", Toks: []string{spreading}},
+	{Name: "spreading-legacy-arg", Pre: "\t{! c2(", Post: ", b) }", Toks: []string{spreading}},
+	{Name: "spreading-class", Pre: "\t<div class={", Post: ", \"a\" }>x</div>", Toks: []string{spreading}},
+	{Name: "spreading-style", Pre: "\t<div style={", Post: "}>x</div>", Toks: []string{spreading}},
+	{Name: "spreading-href", Pre: "\t<a href={ templ.URL(", Post: ") }>x</a>", Toks: []string{spreading}},
+	{Name: "spreading-bool-attr", Pre: "\t<input disabled?={", Post: "== \"a\" }/>", Toks: []string{spreading}},
+	{Name: "spreading-if", Pre: "\tif ", Post: " == \"a\" {\n\t\tyes\n\t}", Toks: []string{spreading}},
+	{Name: "spreading-else-if", Pre: "\tif b {\n\t\tyes\n\t} else if ", Post: " == \"a\" {\n\t\tno\n\t}", Toks: []string{spreading}},
+	{Name: "spreading-switch", Pre: "\tswitch ", Post: " {\n\t\tcase \"a\":\n\t\t\tone\n\t}", Toks: []string{spreading}},
+	{Name: "spreading-case", Pre: "\tswitch s {\n\t\tcase ", Post: ":\n\t\t\tone\n\t}", Toks: []string{spreading}},
+	{Name: "spreading-for", Pre: "\tfor _, x := range []string{", Post: "} {\n\t\t{ x }\n\t}", Toks: []string{spreading}},
+	{Name: "spreading-raw-go", Pre: "\t{{ v := ", Post: " }}\n\t{ v }", Toks: []string{spreading}},
+	{Name: "spreading-cond-attr", Pre: "\t<div if ", Post: " == \"a\" { class=\"a\" }>x</div>", Toks: []string{spreading}},
+	{Name: "spreading-child", Pre: "\t<div><span title={", Post: "}>t</span></div>", Toks: []string{spreading}},
+	{Name: "cond-attr-child", Pre: "\t<div><span if ", Post: "{ class=\"a\" }>t</span> tail</div>", Toks: []string{`b`}},
+	{Name: "cond-attr-grandchild", Pre: "\t<p><b><a if ", Post: "{ href=\"/\" }>t</a></b></p>", Toks: []string{`b`}},
+	{Name: "cond-attr-script", Pre: "\t<script if ", Post: "{ defer }>var a = 1;</script>", Toks: []string{`b`}},
+	{Name: "cond-attr-script-child", Pre: "\t<div><script if ", Post: "{ defer }>var a = 1;</script></div>", Toks: []string{`b`}},
+	{Name: "cond-attr-style", Pre: "\t<style if ", Post: "{ media=\"print\" }>p { margin: 0 }</style>", Toks: []string{`b`}},
+	{Name: "cond-attr-void-child", Pre: "\t<p><input if ", Post: "{ disabled }/> tail</p>", Toks: []string{`b`}},
+	{Name: "spreading-script-attr", Pre: "\t<script data-x={", Post: "}>var a = 1;</script>", Toks: []string{spreading}},
+	{Name: "spreading-void-child", Pre: "\t<p>head <input value={", Post: "}/></p>", Toks: []string{spreading}},
+	{Name: "func-literal-call", Pre: "\t@func() templ.Component {", Post: "}()", Toks: []string{`return`, `templ.NopComponent`}},
+	{Name: "func-literal-arg", Pre: "\t@c2(func() string {", Post: "}(), b)", Toks: []string{`return`, `s`}},
 	{Name: "raw-go", Pre: "\t{{", Post: "}}\n\t{ v }", Toks: []string{`v`, `:=`, `s`}},
 	{Name: "raw-go-two", Pre: "\t{{", Post: "}}\n\t{ v }", Toks: []string{`v`, `:=`, `up(`, `s`, `)`, `;`, `_ = v`}},
 	{Name: "if", Pre: "\tif ", Post: "{\n\t\tyes\n\t}", Toks: []string{`b`, `&&`, `len(xs) > 0`}},
@@ -199,6 +228,9 @@ var Layouts = []Layout{
 	{Name: "script-params", Top: true, Pre: "script j(", Post: ") {\n\tconsole.log(a);\n}\n", Toks: []string{`a`, `string`, `,`, `n`, `int`}},
 	{Name: "receiver", Top: true, Pre: "templ (", Post: ") M() {\n\t<i></i>\n}\n", Toks: []string{`r`, `recv`}},
 }
+
+// spreading is written on one line; gofmt writes the struct type over four.
+const spreading = `struct{ A string; B int }{A: s}.A`
 
 const layoutHeader = "func up(a string, more ...string) string {\n\treturn a\n}\n\ntype recv struct{}\n\ntempl c2(a string, b bool) {\n\t<i>{ a }{ children... }</i>\n}\n\ntempl c3(a any, b string) {\n\t<i>{ b }{ children... }</i>\n}\n\n"
 
